@@ -59,8 +59,8 @@ func init() {
 			{ID: "E13", Floor: 1, Doc: "the reader and the workers never cancel the pipeline: results in flight in front of an error are not dropped", Run: c06E13},
 			{ID: "E9", Floor: 6, Doc: "string references are checked against the current block's string table: cached block parameters are reset before each block (shared with C01.R3)", Run: c01R3},
 		},
-		Benign: append(append(append(append(append(append(append(append([]core.Mutant{}, c06Benign...), c06Benign2...), c06Benign3...), c06Benign4...), c06Benign5...), c06Benign6...), c06Benign7...), c06Benign8...),
-		Mutants: append(append(append(append(append(append([]core.Mutant{}, c06Mutants2...), c06Mutants3...), c06Mutants4...), c06Mutants5...), c06Mutants6...), []core.Mutant{
+		Benign: append(append(append(append(append(append(append(append(append([]core.Mutant{}, c06Benign...), c06Benign2...), c06Benign3...), c06Benign4...), c06Benign5...), c06Benign6...), c06Benign7...), c06Benign8...), c06Benign9...),
+		Mutants: append(append(append(append(append(append(append([]core.Mutant{}, c06Mutants2...), c06Mutants3...), c06Mutants4...), c06Mutants5...), c06Mutants6...), c06Mutants7...), []core.Mutant{
 			{Name: "drop-iterator-error", File: "osmpbf/decode_data.go", Find: "\t\t\tdec.lats, err = msg.Iterator(dec.lats)\n\t\t\tfoundLats = true", Replace: "\t\t\tdec.lats, _ = msg.Iterator(dec.lats)\n\t\t\tfoundLats = true", ExpectRule: "E1", ExpectConstruct: "scanDenseNodes"},
 			{Name: "drop-msg-err", File: "osmpbf/decode_data.go", Find: "\tif msg.Err() != nil {\n\t\treturn msg.Err()\n\t}\n\n\t// we need the offsets", Replace: "\t// we need the offsets", ExpectRule: "E1", ExpectConstruct: "scanPrimitiveBlock"},
 			{Name: "overwrite-err-before-test", File: "osmpbf/decode_data.go", Find: "\t\t\tdec.vals, err = msg.Iterator(dec.vals)\n\t\t\tfoundVals = true\n\t\tcase 4: // info\n\t\t\td, err := msg.MessageData()\n\t\t\tif err != nil {\n\t\t\t\treturn nil, err\n\t\t\t}\n\n\t\t\tinfo := protoscan.New(d)\n\t\t\tfor info.Next() {\n\t\t\t\tswitch info.FieldNumber() {\n\t\t\t\tcase 1:\n\t\t\t\t\tv, err := info.Int32()\n\t\t\t\t\tif err != nil {\n\t\t\t\t\t\treturn nil, err\n\t\t\t\t\t}\n\t\t\t\t\tway.Version", Replace: "\t\t\tdec.vals, err = msg.Iterator(dec.vals)\n\t\t\tfoundVals = true\n\t\t\terr = nil\n\t\tcase 4: // info\n\t\t\td, err := msg.MessageData()\n\t\t\tif err != nil {\n\t\t\t\treturn nil, err\n\t\t\t}\n\n\t\t\tinfo := protoscan.New(d)\n\t\t\tfor info.Next() {\n\t\t\t\tswitch info.FieldNumber() {\n\t\t\t\tcase 1:\n\t\t\t\t\tv, err := info.Int32()\n\t\t\t\t\tif err != nil {\n\t\t\t\t\t\treturn nil, err\n\t\t\t\t\t}\n\t\t\t\t\tway.Version", ExpectRule: "E1", ExpectConstruct: "scanWays"},
